@@ -136,9 +136,59 @@ func (in *instrumenter) list(stmts []ast.Stmt) []ast.Stmt {
 	var out []ast.Stmt
 	for _, s := range stmts {
 		out = append(out, in.point(s.Pos()))
+		if h := in.hoistCall(s); h != nil {
+			in.exprs(h)
+			out = append(out, h)
+			continue
+		}
 		out = append(out, in.stmt(s))
 	}
 	return out
+}
+
+// hoistCall: `x[i] = f(...)` becomes `{ t := f(...); x[i] = t }`. The language leaves open whether the variables in
+// the index expression are read before or after the call; go/ssa reads them before, the compiler used for the native
+// replay after. Normalising the source to the compiler's order makes the symbolic run and the replay agree (and loses
+// nothing: the statement is still one scheduling step). Only when the left side itself contains no call or receive.
+func (in *instrumenter) hoistCall(s ast.Stmt) ast.Stmt {
+	as, ok := s.(*ast.AssignStmt)
+	if !ok || as.Tok != token.ASSIGN || len(as.Lhs) != 1 || len(as.Rhs) != 1 {
+		return nil
+	}
+	ix, ok := as.Lhs[0].(*ast.IndexExpr)
+	if !ok {
+		return nil
+	}
+	readsVar, impure := false, false
+	ast.Inspect(ix, func(n ast.Node) bool {
+		switch x := n.(type) {
+		case *ast.CallExpr, *ast.FuncLit:
+			impure = true
+		case *ast.UnaryExpr:
+			if x.Op == token.ARROW {
+				impure = true
+			}
+		case *ast.Ident:
+			readsVar = true
+		}
+		return true
+	})
+	hasCall := false
+	ast.Inspect(as.Rhs[0], func(n ast.Node) bool {
+		if _, ok := n.(*ast.CallExpr); ok {
+			hasCall = true
+		}
+		return true
+	})
+	if impure || !readsVar || !hasCall {
+		return nil
+	}
+	*in.nextID++
+	tmp := ast.NewIdent(fmt.Sprintf("vfHoisted%d", *in.nextID))
+	return &ast.BlockStmt{List: []ast.Stmt{
+		&ast.AssignStmt{Lhs: []ast.Expr{tmp}, Tok: token.DEFINE, Rhs: []ast.Expr{as.Rhs[0]}},
+		&ast.AssignStmt{Lhs: []ast.Expr{as.Lhs[0]}, Tok: token.ASSIGN, Rhs: []ast.Expr{tmp}},
+	}}
 }
 
 // stmt instruments nested statement lists and function literals and rewrites go statements.
